@@ -121,7 +121,8 @@ def skipBlankBlockGo (s : Src) : Nat → Nat → Nat → Nat × Nat
   | n + 1, p, c =>
     match skipEol s (skipBlankInline s p) with
     | some p' => skipBlankBlockGo s n p' (c + 1)
-    | none => (p, c)
+    -- spaces that run to the end of input are a blank line, too
+    | none => if skipBlankInline s p < s.size then (p, c) else (skipBlankInline s p, c)
 def skipBlankBlock (s : Src) (p : Nat) : Nat × Nat := skipBlankBlockGo s (s.size - p + 1) p 0
 
 /-- `skip_blank` -/
@@ -394,6 +395,8 @@ structure PatState where
   lastNonBlank : Option Nat
   commonIndent : Option Nat
   role : TextPos
+  /-- `kept_common_indent`: the common indent when `last_non_blank` was last set -/
+  keptCommonIndent : Option Nat := none
 
 /-! ## expression.rs, core.rs — the mutually recursive part (explicit fuel) -/
 
@@ -409,6 +412,7 @@ def getPatternLoop (s : Src) : Nat → PatState → Nat → R PatState
         match getPlaceable s n (p + 1) with
         | .ok e q =>
           getPatternLoop s n { st1 with lastNonBlank := some st1.elements.length,
+                                        keptCommonIndent := st1.commonIndent,
                                         elements := st1.elements ++ [.placeable e],
                                         role := .continuation } q
         | .err e q => .err e q
@@ -468,6 +472,7 @@ def getPatternLoop (s : Src) : Nat → PatState → Nat → R PatState
                   | some e, some sv =>
                     some { st with commonIndent := ci,
                                    lastNonBlank := if sv then some st.elements.length else st.lastNonBlank,
+                                   keptCommonIndent := if sv then ci else st.keptCommonIndent,
                                    elements := st.elements ++ [e] }
                   | _, _ => none
                 else some { st with commonIndent := ci }
@@ -494,11 +499,11 @@ def getPattern (s : Src) : Nat → Nat → R (Option (Pattern Span))
       match skipEol s p1 with
       | some q => (TextPos.lineStart, (skipBlankBlock s q).1)
       | none => (TextPos.initialLineStart, p1)
-    match getPatternLoop s n ⟨[], none, none, role⟩ p2 with
+    match getPatternLoop s n ⟨[], none, none, role, none⟩ p2 with
     | .ok st q =>
       (match st.lastNonBlank with
        | some lnb =>
-         (match finishElements s st.commonIndent lnb 0 st.elements with
+         (match finishElements s st.keptCommonIndent lnb 0 st.elements with
           | some els => .ok (some els) q
           | none => .panic "get_pattern slice")
        | none => .ok none q)
